@@ -1,4 +1,4 @@
-\* C03/C04 family (quick): authentication, attribution, routing.  3 clients, 3 keys, 2 allowed targets + 1 forbidden
+\* C03/C04 family (thorough): authentication, attribution, routing.  3 clients, 3 keys, 2 allowed targets + 1 forbidden
 SPECIFICATION Spec
 CONSTANTS
   Clients = {1, 2, 3}
@@ -18,7 +18,7 @@ CONSTANTS
   DNST = 3
   Ticks = {3}
   MaxNow = 3
-  MaxDg = 2
+  MaxDg = 3
   MaxRp = 1
   MaxAssoc = 3
   Slack = 0
